@@ -16,14 +16,16 @@ claimed = {
   text=("Decides for all field values: the 20 request encoders write exactly the specified ADU layout without gap or overlap "
         "(R1.1), constructors accept only quantities inside the specification's limits with payload length tied to the quantity "
         "(R1.2), frames fit 260/256 bytes (R1.3), coil j is bit j mod 8 of byte j div 8 for every j (R1.4), no narrow arithmetic "
-        "wraps (R1.W). FC16/FC23 constructor limits of 124 are known findings."),
+        "wraps (R1.W). FC16/FC23 constructor limits of 124 are known findings."
+        " R1.5: protocol id bytes are the constant 0 for any struct contents."),
   note=ENGINE_NOTE + " The specification table in checker/spec.go is the oracle; the random transaction id is unconstrained.",
   ref="DESIGN.md §3 C01"),
  "C02": dict(
   technique="symbolic round trip encode∘parse = id over a symbolic frame (parser read map composed with encoder write map)",
   text=("For every well-formed response frame of the ten functions in both framings: the parser's result, fed to Bytes(), "
         "reproduces the frame segment by segment (R2.1); byte-counted responses are accepted only with consistent length (R2.2); "
-        "exception frames are recognised exactly and carry unit/function/code (R2.3); dispatchers agree with parsers (R2.4)."),
+        "exception frames are recognised exactly and carry unit/function/code (R2.3); dispatchers agree with parsers (R2.4)."
+        " Also: installed recognisers (R2.3), recogniser sees everything received (R2.5), acceptance of every well-formed reply (R2.6)."),
   note=ENGINE_NOTE + " Premises are printed in evidence (protocol id 0, MBAP length = len-6, function byte = case constant, legal FC5 value, fixed-size replies have their length, FC17 within one ADU).",
   ref="DESIGN.md §3 C02"),
  "C03": dict(
@@ -31,7 +33,8 @@ claimed = {
   text=("Decides that every RTU frame emitted ends with CRC16(buf[0:L-2]) low byte first with no later write into the body "
         "(R3.1), that the CRC-verifying entry points reach the inner parser only under trailer == CRC16(data[0:len-2]) and reject "
         "nothing else (R3.2), and that CRC16 reads every input byte (R3.0, a necessary condition of clause 1). That CRC16's "
-        "arithmetic equals the Modbus polynomial for every byte string is NOT decided (needs execution or a proof of the loop)."),
+        "arithmetic equals the Modbus polynomial for every byte string is NOT decided (needs execution or a proof of the loop)."
+        " Also: CRC range for arbitrary struct contents (R3.1), RTU clients install CRC-verifying functions (R3.3)."),
   note=ENGINE_NOTE + " CRC16 is an uninterpreted function in R3.1/R3.2.",
   ref="DESIGN.md §3 C03"),
  "C04": dict(
@@ -40,7 +43,8 @@ claimed = {
         "outside the payload or panics (R4.1), success returns imply the access lies in the window and error returns are "
         "impossible for in-window accesses (R4.4), returned bytes are payload[2*(addr-start)+pi(j)] with the word permutation "
         "tied to the LowWordFirst flag (R4.2), and each typed accessor uses the getter width and endianness its type and flags "
-        "demand (R4.3). Float value identity is not decided."),
+        "demand (R4.3). Float value identity is not decided."
+        " R4.5: no access path writes the payload or keeps decoder state."),
   note=ENGINE_NOTE + " Registers values are assumed to come from NewRegisters (fields unexported; checked that no other function writes them).",
   ref="DESIGN.md §3 C04"),
  "C05": dict(
@@ -48,7 +52,8 @@ claimed = {
   text=("Decides structural necessary conditions only (R5.1-R5.5): size table = accessor table for the 13 register field types, "
         "argument roles at every hand-over between builder, response and Registers, descriptor = constructor arguments in split, "
         "every field visited and reported exactly once in both extraction loops, widest size kept when fields share an address. "
-        "The end-to-end equality with device memory for all field multisets is NOT decided (needs execution)."),
+        "The end-to-end equality with device memory for all field multisets is NOT decided (needs execution)."
+        " Also R5.6 effect-free extraction, R5.7 constructors accept the full range 1..limit, R5.8 follow-up batches keep address and unit id, byte-order-aware accessors for multi-register types."),
   note=ENGINE_NOTE,
   ref="DESIGN.md §3 C05"),
  "C06": dict(
@@ -56,7 +61,8 @@ claimed = {
   text=("Decides structural necessary conditions only (R6.1-R6.3, R6.W): descriptors are built from validating constructors on "
         "the batch's own values, the grouping key separates server/unit/kind injectively, the kind filter is exact, targets map to "
         "the right constructors, limits equal the specification, and slot end/span arithmetic cannot wrap. Optimality/tightness of "
-        "the greedy batching for all field lists is NOT decided."),
+        "the greedy batching for all field lists is NOT decided."
+        " Also R6.4 (= R5.7) and R6.5 (the eight read-request encoders put unit/start/quantity on the wire as specified)."),
   note=ENGINE_NOTE,
   ref="DESIGN.md §3 C06"),
  "C07": dict(
@@ -64,13 +70,15 @@ claimed = {
   text=("Decides necessary conditions only: ExpectedResponseLength equals the specified reply length for all quantities (R7.1; "
         "11 formulas are known findings pinned by tests), the read loop accumulates exactly what Read returned, exits to success "
         "only when complete (or EOF), tolerates exactly deadline/EOF errors, returns a copy of what was read (R7.2), and applies "
-        "the exception recogniser to everything received in every iteration (R7.3). Scheduling and timing are not decided."),
+        "the exception recogniser to everything received in every iteration (R7.3). Scheduling and timing are not decided."
+        " Also R7.4 installed recognisers claim only exception frames, R7.5 positive read timeout from the right configuration field, R7.6 parsers accept and decode every well-formed reply, R7.7 oversize limit = ADU size."),
   note=ENGINE_NOTE + " io.Reader contract and errors.Is as an uninterpreted predicate are assumed.",
   ref="DESIGN.md §3 C07"),
  "C08": dict(
   technique="abstract interpretation + CFG rules (select on every cycle, allow-listed calls, error classification by value origin)",
   text=("Decides structural termination and classification clauses on Do/do of both clients (R8.1-R8.5). Bounded wall-clock time "
-        "is NOT decided; finite serial reads are assumed."),
+        "is NOT decided; finite serial reads are assumed."
+        " Also R8.6 usable timeouts/functions and configuration plumbing, R8.7 connection stored only after a successful dial, R8.8 installed reply functions cannot panic, R8.9 no exit leaves the client mutex held."),
   note=ENGINE_NOTE,
   ref="DESIGN.md §3 C08"),
  "C09": dict(
@@ -93,7 +101,8 @@ claimed = {
   text=("Decides the coil position function of the lookup and of the packer symbolically for all addresses and payload sizes, "
         "their agreement with the specification layout and with each other, range errors both ways, and the plumbing of the "
         "three wrappers. The write/read-back clause follows from those for every pattern. The byte-order defect of isBitSet is "
-        "a known finding (pinned by existing tests)."),
+        "a known finding (pinned by existing tests)."
+        " Also R11.4 wrappers only forward, R11.5 recogniser and parser of one framing, R11.6 replies are fresh copies."),
   note=ENGINE_NOTE,
   ref="DESIGN.md §3 C11"),
  "C12": dict(
@@ -101,7 +110,8 @@ claimed = {
   text=("Decides that the RTU constructors leave CRC-guarded static functions in both response-function fields, that both "
         "functions return reply content only under trailer == CRC16(body) on their own input, and that do()/Do can hand nothing "
         "else carrying reply content to the caller (R12.1-R12.3), for every reply and every corruption. User-supplied functions "
-        "are outside the property."),
+        "are outside the property."
+        " R12.4: the recogniser sees received[0:total]."),
   note=ENGINE_NOTE,
   ref="DESIGN.md §3 C12"),
  "C13": dict(
@@ -116,7 +126,8 @@ claimed = {
   text=("Decides for every schedule, by the semantics of sync.RWMutex: guarded fields are only accessed under the lock, writes and "
         "all transport operations under the exclusive lock, Do holds the exclusive lock from entry to its single deferred unlock "
         "with the whole exchange inside, Close tests the transport under the lock (R14.1-R14.4). Fairness and the transport's own "
-        "thread safety are not decided."),
+        "thread safety are not decided."
+        " Also R14.5 replies never alias a reused buffer, R14.6 no exit leaves the mutex held."),
   note=ENGINE_NOTE,
   ref="DESIGN.md §3 C14"),
  "C15": dict(
@@ -124,7 +135,8 @@ claimed = {
   text=("Decides structural necessary conditions (R15.1-R15.4): frames are consumed and answered only when completely buffered, "
         "a complete request is never withheld, every answering path removes exactly the answered bytes (or closes), buffered "
         "requests are all handled in order within one read, the connection loop hands over exactly what was read and writes the "
-        "reply before the next read. Exactly-once/in-order over all segmentations as a whole is NOT decided."),
+        "reply before the next read. Exactly-once/in-order over all segmentations as a whole is NOT decided."
+        " Also R15.5 one freshly allocated assembler per accepted connection, R15.6 classifier verdict depends on the header bytes only, accumulator returned on every loop exit."),
   note=ENGINE_NOTE + " bytes.Buffer contract is modelled, not analysed.",
   ref="DESIGN.md §3 C15"),
  "C16": dict(
@@ -132,7 +144,8 @@ claimed = {
   text=("Decides: assembler type assertions cannot fail (R16.1), every feasible rejection of a classifier-accepted complete frame "
         "is an exception addressed with the frame's transaction id/unit/function and code 3 and no panic is possible (R16.2), the "
         "exception ADU layout (R16.3), origin and addressing of every reply the assembler emits (R16.4), recover-protected "
-        "goroutines (R16.5), complete-frame consumption (R16.0). Handler-built responses are outside."),
+        "goroutines (R16.5), complete-frame consumption (R16.0). Handler-built responses are outside."
+        " R16.6: no write to package-level state on the per-connection path."),
   note=ENGINE_NOTE,
   ref="DESIGN.md §3 C16"),
  "C17": dict(
@@ -141,21 +154,24 @@ claimed = {
         "shared server state only under the mutex, untrack and close-callback guard exactly once on every path of the cleanup, "
         "rejected connections closed, context cancellation closes the listener, shutdown flag ordering, in-flight flag cleared "
         "only after the reply write. Exact accounting under all interleavings, the full in-flight guarantee of Shutdown and "
-        "bounded time are NOT decided (schedule exploration)."),
+        "bounded time are NOT decided (schedule exploration)."
+        " Also R17.7 nil listener, R17.8 Shutdown scan flag is monotone and never up for an in-flight connection, R17.9 no exit leaves Server.mu held, R17.10 all replies of a read are handed back and written."),
   note=ENGINE_NOTE,
   ref="DESIGN.md §3 C17"),
  "C18": dict(
   technique="constant-table comparison, abstract interpretation of the classifier on the encoders' symbolic buffers for every prefix length",
   text=("Decides table agreement (R18.1), expected length = 6 + length field (R18.2), too-short exactly below 8 bytes and "
         "acceptance of every prefix >= 8 of every encodable request with the right length (R18.3; FC17 is a known finding), "
-        "addressed unsupported-function exception (R18.4), no panic in the dispatcher on accepted frames (R18.5)."),
+        "addressed unsupported-function exception (R18.4), no panic in the dispatcher on accepted frames (R18.5)."
+        " Also R18.6 (= R16.2), R18.7 (= R1.5), R18.8 (= R15.6)."),
   note=ENGINE_NOTE,
   ref="DESIGN.md §3 C18"),
  "C19": dict(
   technique="value identity of hook arguments with transport call arguments/results in the abstract interpretation; CFG placement rules",
   text=("Decides that the six hook call sites receive exactly the written slice, the chunk/count/error of the Read of the same "
         "iteration and the frame handed to the parser, are evaluated once per event on every path, and cannot influence the "
-        "outcome (R19.1-R19.4). User hook bodies are outside."),
+        "outcome (R19.1-R19.4). User hook bodies are outside."
+        " Also: hook and parser only on success (R19.3), chunk accounting (R19.5), constructors pass Hooks through (R19.6)."),
   note=ENGINE_NOTE,
   ref="DESIGN.md §3 C19"),
 }
